@@ -85,6 +85,8 @@ def gen_forest(rng, cfg):
     T = cfg["T"]
     n = rng.randint(1, 8)
     ids = rng.sample(range(1, 40), n)
+    if not cfg["seg"] and rng.random() < 0.3:
+        ids[rng.randrange(n)] = 0     # node id 0 is an ordinary id when there is no label array (0-based tables)
     g = nx.DiGraph()
     seg = np.zeros((T, *cfg["shape"]), dtype=np.int64) if cfg["seg"] else None
     occ = [set() for _ in range(T)]
@@ -129,16 +131,26 @@ def build_tracks(cfg, g, seg):
     kw = {}
     if cfg["per_axis"]:
         kw["pos_attr"] = (["z"] if cfg["ndim"] == 4 else []) + ["y", "x"]
-    sup = cfg.get("supply") or {"track": None, "lineage": None, "pos": False, "area": False}
+    sup = cfg.get("supply") or {"track": None, "lineage": None, "pos": False, "area": False, "dict": False}
     g2 = g
+    fdict = None
     if any(sup.values()) and g.number_of_nodes() > 0:
         # what the data would get when computed from scratch; a solution that arrives with its own valid ids
         # (0-based: id 0 is falsy, None is not; or non-contiguous) keeps them
         ref = SolutionTracks(g.copy(), segmentation=None if seg is None else np.array(seg), ndim=cfg["ndim"], scale=cfg["scale"], **kw)
-        g2 = K.supply(cfg, g, ref, sup)
+        if sup.get("dict"):
+            import copy
+
+            g2 = K.supply_all(cfg, g, ref, sup)
+            fdict = copy.deepcopy(ref.features)
+        else:
+            g2 = K.supply(cfg, g, ref, sup)
     me = sys.modules[__name__]
-    raw = K.raw_lines(me, cfg, g2, seg, kw.get("pos_attr") or ["pos"])
-    t = SolutionTracks(g2, segmentation=seg, ndim=cfg["ndim"], scale=cfg["scale"], **kw)
+    raw = K.raw_lines(me, cfg, g2, seg, kw.get("pos_attr") or ["pos"], fdict)
+    if fdict is not None:
+        t = SolutionTracks(g2, segmentation=seg, ndim=cfg["ndim"], scale=cfg["scale"], features=fdict)
+    else:
+        t = SolutionTracks(g2, segmentation=seg, ndim=cfg["ndim"], scale=cfg["scale"], **kw)
     obs = [dict(observe(t, cfg, 0, "-"), ret=0, aux=[])]
     if cfg["enable"]:
         t.enable_features(list(cfg["enable"]))
@@ -356,6 +368,8 @@ def gen_op(rng, t, cfg, ids_seen):
     if kind == "an":
         unused = [i for i in range(1, 60) if i not in g]
         nid = rng.choice(unused) if rng.random() < 0.93 or not ns else rng.choice(ns)
+        if not cfg["seg"] and 0 not in g and rng.random() < 0.1:
+            nid = 0
         tm = rng.randrange(T)
         tids = sorted({t.get_track_id(x) for x in ns})
         r = rng.random()
